@@ -132,10 +132,14 @@ impl VM {
         O: std::io::Write + Clone,
         E: std::io::Write + Clone,
     {
+        #[cfg(feature = "verif")]
+        let _verif_run = crate::verif::RunGuard::new();
         while let Some(op) = self.ops.next() {
             let op = op.clone();
             let pos = self.ops.pos().unwrap().clone();
             let idx = self.ops.idx()?;
+            #[cfg(feature = "verif")]
+            self.verif_op_event(idx, &op);
             match op {
                 Op::Val(p) => self.push(Rc::new(P(p.clone())), pos)?,
                 Op::Cast(t) => self.op_cast(t)?,
@@ -199,6 +203,44 @@ impl VM {
             self.import_stack.push(p.to_string_lossy().into());
         }
         Ok(())
+    }
+
+    /// One event per opcode, emitted BEFORE it is dispatched: the pointer, the
+    /// mnemonic, the depth of nested runs and the stack this VM has at that moment.
+    #[cfg(feature = "verif")]
+    fn verif_op_event(&self, idx: usize, op: &Op) {
+        if !crate::verif::active() {
+            return;
+        }
+        let name = format!("{:?}", op);
+        let name = name.split(['(', ' ', '{']).next().unwrap_or("").to_string();
+        let mut ev = serde_json::json!({
+            "ev": "op", "ptr": idx, "opn": name, "sl": self.stack.len(),
+            "depth": crate::verif::depth(),
+        });
+        if let Some((v, _)) = self.stack.last() {
+            ev["top"] = Self::verif_value(v.as_ref());
+        }
+        crate::verif::emit(ev);
+    }
+
+    #[cfg(feature = "verif")]
+    fn verif_value(v: &Value) -> serde_json::Value {
+        use serde_json::json;
+        match v {
+            P(Int(i)) => json!({"t": "int", "i": i}),
+            P(Float(f)) => json!({"t": "float", "r": format!("{:?}", f)}),
+            P(Str(s)) => json!({"t": "str", "s": s.as_ref()}),
+            P(Bool(b)) => json!({"t": "bool", "b": b}),
+            P(Empty) => json!({"t": "null"}),
+            C(List(els, _)) => json!({"t": "list", "n": els.len()}),
+            C(Tuple(fs, _)) => json!({"t": "tuple", "n": fs.len()}),
+            F(_) => json!({"t": "func"}),
+            M(_) => json!({"t": "module"}),
+            T(_) => json!({"t": "thunk"}),
+            S(s) => json!({"t": "sym", "nm": s.as_ref()}),
+            K(_) => json!({"t": "constraint"}),
+        }
     }
 
     fn do_cast(&mut self, t: CastType, val: &Value, pos: Position) -> Result<(), Error> {
@@ -1181,6 +1223,9 @@ impl VM {
         pos: &Position,
         name_pos: &Position,
     ) -> Result<(), Error> {
+        #[cfg(feature = "verif")]
+        crate::verif::emit(serde_json::json!({"ev": "bind", "nm": name.as_ref(),
+            "existed": self.symbols.is_bound(&name), "strict": strict}));
         if self.reserved_words.contains(name.as_ref()) {
             return Err(Error::new(
                 format!("{} is a reserved word.", name).into(),
